@@ -24,12 +24,12 @@ Consume == l' = l + 1 /\ tr' = tr
 
 TInit ==
   /\ tr \in DOMAIN Traces /\ l = 0
-  /\ nsh = Traces[tr].nsh0 /\ clock = 0 /\ faults = 0 /\ envs = 0 /\ cyc = "none"
+  /\ nsh = Traces[tr].nsh0 /\ clock = 0 /\ faults = 0 /\ envs = 0 /\ cyc = CycIdle
   /\ sc = [i \in 1..MaxN |-> Fresh(0)]
   /\ disc = {} /\ alive = [t \in Targets |-> TRUE]
   /\ size = [t \in Targets |-> SizeOf(Traces[tr].sizes[t])]
   /\ est = [t \in Targets |-> [known |-> FALSE, health |-> "unknown", series |-> 0, total |-> 0]]
-  /\ pc = "idle" /\ in = <<>> /\ ch = <<>> /\ pl = <<>> /\ ld = <<>> /\ idl = <<>> /\ need = ZeroLoad /\ cur = 0
+  /\ pc = "idle" /\ in = InIdle /\ ch = <<>> /\ pl = <<>> /\ ld = <<>> /\ idl = <<>> /\ need = ZeroLoad /\ cur = 0
   /\ vis = {} /\ tot = 0 /\ sps = <<>> /\ scale = 0 /\ reqs = <<>> /\ posts = <<>> /\ scales = <<>>
 
 EnvStep(a) ==
